@@ -118,3 +118,9 @@ package db
 //@   props C06
 //@   modifies alloc heap lk_shared lk_pending jr_pos
 //@   ensures err == nil ==> r0 != nil
+
+// OpenFile: every call returns a handle of its own (a new Database object on a new pager).
+//@ func db.OpenFile
+//@   props C20 C05
+//@   modifies * -M:S_db_KeyCol -M:S_sqlittle_columnIndex hdr_valid hdr_ps hdr_cookie jr_pos peer_state lk_shared lk_pending other_shared
+//@   ensures [own] err == nil ==> r0 != nil && fresh(r0)
